@@ -6,6 +6,7 @@ import (
 	"fmt"
 	"os"
 	"sort"
+	"strings"
 	"time"
 
 	proto "github.com/kubewharf/kubebrain-client/api/v2rpc"
@@ -127,6 +128,7 @@ type World struct {
 	clients  []*clientState
 	OnStep   func(step uint64)
 	progressMark int
+	doneRecs int
 	probe    *clientState
 	inflight map[string]*Rec
 	probeIdx int
@@ -171,6 +173,11 @@ func New(sc *Scenario) (*World, error) {
 		s.Inactive[x] = true
 	}
 	s.Forced = sc.Forced
+	for k, v := range sc.Extra {
+		if strings.HasPrefix(k, "stall:") {
+			s.StallSites[k[6:]] = uint64(v)
+		}
+	}
 	if os.Getenv("VERIF_TRACE") != "" {
 		s.KeepTrace = true
 	}
@@ -342,12 +349,7 @@ func (w *World) Run() {
 }
 
 func (w *World) progressed() bool {
-	n := 0
-	for _, r := range w.Recs {
-		if r.Done {
-			n++
-		}
-	}
+	n := w.doneRecs
 	if n != w.progressMark {
 		w.progressMark = n
 		return true
